@@ -1438,6 +1438,74 @@ def _getdata(I, args, kw):
     return r
 
 
+def permute_axes(a, perm):
+    """view of `a` whose axis k is axis perm[k] of `a` (numpy.transpose semantics)"""
+    perm = tuple(perm)
+
+    def to_src(v):
+        out = [None] * len(perm)
+        for k, p_ in enumerate(perm):
+            out[p_] = v[k]
+        return tuple(out)
+
+    def from_src(s_):
+        return tuple(s_[p_] for p_ in perm)
+    r = SArr(tuple(a.shape[p_] for p_ in perm), kind=a.kind, buf=a.buf, imap=lambda v: a.imap(to_src(v)),
+             inv=lambda q: (lambda c, s_: (c, from_src(s_)))(*a.inv(q)), attrs={}, tag='transpose')
+    if a.mask is not None:
+        r.mask = permute_axes(a.mask, perm)
+    if hasattr(a, 'cls'):
+        r.cls = a.cls
+    return r
+
+
+@_np('rollaxis')
+def _rollaxis(I, args, kw):
+    a = _as_arr(I, args[0])
+    axis = kw.get('axis', args[1] if len(args) > 1 else None)
+    start = kw.get('start', args[2] if len(args) > 2 else 0)
+    if is_sym(axis) or is_sym(start) or axis is None:
+        raise Unsupported('rollaxis with symbolic axis')
+    n = a.ndim
+    axis = axis % n if -n <= axis < n else None
+    if axis is None or not (-n <= start <= n):
+        raise PyExc('AxisError')
+    if start < 0:
+        start += n
+    I.ctx.trust('numpy.rollaxis(a, axis, start): the axis is moved to lie before position start (a view)')
+    if start > axis:
+        start -= 1
+    order = list(range(n))
+    order.remove(axis)
+    order.insert(start, axis)
+    return permute_axes(a, order)
+
+
+@_np('transpose')
+def _transpose(I, args, kw):
+    a = _as_arr(I, args[0])
+    axes = kw.get('axes', args[1] if len(args) > 1 else None)
+    if axes is None:
+        axes = list(range(a.ndim))[::-1]
+    axes = [x % a.ndim for x in axes]
+    if sorted(axes) != list(range(a.ndim)):
+        raise PyExc('ValueError')
+    return permute_axes(a, axes)
+
+
+@_np('moveaxis')
+def _moveaxis(I, args, kw):
+    a = _as_arr(I, args[0])
+    src, dst = args[1], args[2]
+    if is_sym(src) or is_sym(dst) or not isinstance(src, int) or not isinstance(dst, int):
+        raise Unsupported('moveaxis with several / symbolic axes')
+    n = a.ndim
+    src, dst = src % n, dst % n
+    order = [k for k in range(n) if k != src]
+    order.insert(dst, src)
+    return permute_axes(a, order)
+
+
 @_np('atleast_1d')
 def _atleast_1d(I, args, kw):
     x = args[0]
